@@ -118,6 +118,10 @@ class ThreadWorker(base.Worker):
         self._wrap_future(fs, conn)
 
     def accept(self, server, listener):
+        # several listeners can be ready in the same round of the main loop,
+        # which only checked the limit once before polling
+        if self.nr_conns >= self.worker_connections:
+            return
         try:
             sock, client = listener.accept()
             # initialize the connection object
